@@ -544,9 +544,10 @@ static std::string mutate(Rng& r, std::string s, const char* special) {
     int m = r.range(1, 3);
     size_t sl = strlen(special);
     for (int k = 0; k < m; k++) {
-        int op = r.range(0, 6);
+        int op = r.range(0, 7);
         size_t pos = s.empty() ? 0 : r.below(s.size() + 1);
-        if (op == 0 && !s.empty()) s.resize(r.below(s.size() + 1));
+        if (op == 7) put_magic_number(r, s);
+        else if (op == 0 && !s.empty()) s.resize(r.below(s.size() + 1));
         else if (op == 1 && pos < s.size()) s.erase(pos, r.range(1, 3));
         else if (op == 2) s.insert(std::min(pos, s.size()), 1, special[r.below(sl)]);
         else if (op == 3 && pos < s.size()) s[pos] = (char)r.below(256);
@@ -802,6 +803,19 @@ static void run_c17(long cases) {
         for (const char* t : {"a=b; Expires=Thu, 07 Sep 2090", "a=b; Expires=Wed, 24 Nov 04 03:42:13 UTC", "a=b; Expires=Wed, 24 Nov 9999 03:42:13 GMT",
                               "a=b; Max-Age=99999999999999999999", "a=b; Max-Age=2147483648", "a=b; Max-Age=", "a=b;", "a=b; ", "a=b; Path", "a=b; Secure;", "=", "a=b; =; =", "a=b; Expires="})
             c17_directed(t);
+        // Max-Age at the edge of int: values up to INT_MAX are read exactly, anything above is rejected (never wrapped)
+        for (const char* t : {"0", "1", "214748364", "2147483639", "2147483640", "2147483645", "2147483646", "2147483647", "2147483648", "2147483649", "2147483650", "2147483657", "4294967295", "4294967296", "4294967297", "9223372036854775807", "9223372036854775808", "18446744073709551615", "18446744073709551616", "21474836470"}) {
+            std::string text = std::string("a=b; Max-Age=") + t;
+            BEGIN("cookie-maxage-edge", "directed", text);
+            Fence& f = fence_slot(); f.place(text.data(), text.size());
+            bool has = false; long got = -1;
+            Thrown th = guarded([&] { auto c = Http::Cookie::fromRaw(f.ptr, f.len); has = c.maxAge.has_value(); if (has) got = *c.maxAge; });
+            bool fits = strlen(t) < 10 || (strlen(t) == 10 && strcmp(t, "2147483647") <= 0);
+            if (fits && (th.any || !has || got != atol(t))) viol("c17:max-age-edge:not-read-exactly", text + (th.any ? " rejected: " + th.what : " read as " + std::to_string(got)));
+            if (!fits && !th.any) viol("c17:max-age-edge:accepted-above-int-max", text + " accepted, Max-Age read as " + (has ? std::to_string(got) : std::string("absent")));
+            count("cookie_maxage_edge");
+            end_case();
+        }
     }
     for (int mask = g_opts.shard; mask < 128; mask += g_opts.nshards) for (int k = 0; k < 4; k++) c17_roundtrip(gen_cookie(r, mask));
     for (long i = 0; i < cases; i++) {
